@@ -9,4 +9,4 @@ CONSTANTS
  MaxCalls = 5
 CONSTRAINT CallBound
 VIEW MCView
-INVARIANTS OrderedOutput BlocksPartitionInput BoundariesOnlyWhereRequested FlushCompletes BarrierCompletes FinishCompletes BufErrorOnlyWhenStarved DocumentedCodes QueueBound EndJoinsAll NoLostWorker
+INVARIANTS ProgressTruthful OrderedOutput BlocksPartitionInput BoundariesOnlyWhereRequested FlushCompletes BarrierCompletes FinishCompletes BufErrorOnlyWhenStarved DocumentedCodes QueueBound EndJoinsAll NoLostWorker
